@@ -108,7 +108,14 @@ def _checks_of(fn: ast.FunctionDef, app_names: List[str]) -> Dict[str, Any]:
         for n in ast.walk(fn):
             if isinstance(n, ast.If) and isinstance(n.test, ast.BoolOp) and isinstance(n.test.op, ast.And):
                 vals = n.test.values
-                if not (isinstance(vals[0], ast.Name) and vals[0].id == po_var):
+                # first conjunct: `permitted_opens` (truth value) or `permitted_opens is not None` -- the same thing
+                # here, since `_add_permitopen` never leaves an empty set behind
+                g = vals[0]
+                is_truth = isinstance(g, ast.Name) and g.id == po_var
+                is_presence = isinstance(g, ast.Compare) and len(g.ops) == 1 and isinstance(g.ops[0], ast.IsNot) \
+                    and isinstance(g.left, ast.Name) and g.left.id == po_var \
+                    and isinstance(g.comparators[0], ast.Constant) and g.comparators[0].value is None
+                if not (is_truth or is_presence):
                     continue
                 exact = wild = False
                 for t in vals[1:]:
@@ -154,6 +161,48 @@ def _perm_rule(fn: ast.FunctionDef, attr: str) -> Tuple[str, bool]:
     raise Untranslatable(f'{fn.name}: option lookup not understood')
 
 
+def _is_self_attr(n: ast.AST, attr: str) -> bool:
+    return isinstance(n, ast.Attribute) and n.attr == attr and isinstance(n.value, ast.Name) and n.value.id == 'self'
+
+
+def _cert_guard(fn: ast.FunctionDef) -> Tuple[bool, bool]:
+    """`check_certificate_permission` must be  `if <guard>: return <lookup>  else: return <const>`;
+    returns (guard is the presence test `self._cert_options is not None`, the constant).  A bare
+    `self._cert_options` guard is a truth-value test (an empty dictionary then counts as no certificate)."""
+    body = [s for s in fn.body if not (isinstance(s, ast.Expr) and isinstance(getattr(s, 'value', None), ast.Constant))]
+    if len(body) != 1 or not isinstance(body[0], ast.If):
+        raise Untranslatable(f'{fn.name}: body is not a single if/else')
+    node = body[0]
+    if len(node.body) != 1 or not isinstance(node.body[0], ast.Return) or len(node.orelse) != 1 \
+            or not isinstance(node.orelse[0], ast.Return) or not isinstance(node.orelse[0].value, ast.Constant) \
+            or not isinstance(node.orelse[0].value.value, bool):
+        raise Untranslatable(f'{fn.name}: branches are not `return <lookup>` / `return <bool>`')
+    t = node.test
+    if isinstance(t, ast.Compare) and len(t.ops) == 1 and isinstance(t.ops[0], ast.IsNot) \
+            and _is_self_attr(t.left, '_cert_options') and isinstance(t.comparators[0], ast.Constant) \
+            and t.comparators[0].value is None:
+        presence = True
+    elif _is_self_attr(t, '_cert_options'):
+        presence = False
+    else:
+        raise Untranslatable(f'{fn.name}: guard {ast.dump(t)[:80]} not understood')
+    return presence, bool(node.orelse[0].value.value)
+
+
+def _key_lookup_shape(fn: ast.FunctionDef) -> bool:
+    """`check_key_permission` must be a single `return [not] self._key_options.get(...)`; returns negated?"""
+    body = [s for s in fn.body if not (isinstance(s, ast.Expr) and isinstance(getattr(s, 'value', None), ast.Constant))]
+    if len(body) != 1 or not isinstance(body[0], ast.Return):
+        raise Untranslatable(f'{fn.name}: body is not a single return')
+    v = body[0].value
+    neg = isinstance(v, ast.UnaryOp) and isinstance(v.op, ast.Not)
+    call = v.operand if neg else v          # type: ignore
+    if not (isinstance(call, ast.Call) and isinstance(call.func, ast.Attribute) and call.func.attr == 'get'
+            and _is_self_attr(call.func.value, '_key_options')):
+        raise Untranslatable(f'{fn.name}: not a lookup in self._key_options')
+    return neg
+
+
 def lean_bool(b: bool) -> str:
     return 'true' if b else 'false'
 
@@ -176,17 +225,12 @@ def generate() -> Tuple[str, Dict[str, Any]]:
     cert_fn = _find_method(tree, 'SSHServerConnection', 'check_certificate_permission')
     key_prefix, key_default = _perm_rule(key_fn, '_key_options')
     cert_prefix, cert_default = _perm_rule(cert_fn, '_cert_options')
-    # `return not self._key_options.get(...)`: the key option *revokes*
-    key_negated = any(isinstance(n, ast.Return) and isinstance(n.value, ast.UnaryOp) and isinstance(n.value.op, ast.Not)
-                      for n in ast.walk(key_fn))
-    # without a certificate everything is permitted: `else: return True`
-    cert_absent_true = False
-    for n in ast.walk(cert_fn):
-        if isinstance(n, ast.If) and n.orelse and isinstance(n.orelse[0], ast.Return) \
-                and isinstance(n.orelse[0].value, ast.Constant) and n.orelse[0].value.value is True:
-            cert_absent_true = True
+    key_negated = _key_lookup_shape(key_fn)          # `return not self._key_options.get(...)`: the option revokes
+    cert_presence, cert_absent_true = _cert_guard(cert_fn)
+    # the permitopen guard: `permitted_opens and ...` (truth value: an empty set is "no restriction")
     info['rules'] = dict(key_prefix=key_prefix, key_default=key_default, key_negated=key_negated,
-                         cert_prefix=cert_prefix, cert_default=cert_default, cert_absent_true=cert_absent_true)
+                         cert_prefix=cert_prefix, cert_default=cert_default, cert_absent_true=cert_absent_true,
+                         cert_guard_is_presence_test=cert_presence)
 
     socks = importlib.import_module('asyncssh.socks')
     consts = importlib.import_module('asyncssh.constants')
@@ -228,6 +272,13 @@ def generate() -> Tuple[str, Dict[str, Any]]:
     out.append(f'def certOptionPrefix : String := "{cert_prefix}"')
     out.append(f'def certOptionDefault : Bool := {lean_bool(cert_default)}')
     out.append(f'def certAbsentPermits : Bool := {lean_bool(cert_absent_true)}')
+    out.append("/-- the guard of `check_certificate_permission` is the presence test `self._cert_options is not None`")
+    out.append("    (false: a truth-value test, under which a certificate without any option counts as no certificate) -/")
+    out.append(f'def certGuardIsPresenceTest : Bool := {lean_bool(cert_presence)}')
+    out.append('/-- the lookup rules as one record, the parameter of the decision model -/')
+    out.append('def lookup : Lookup :=')
+    out.append('  { keyRevokes := keyOptionRevokes, keyDefault := keyOptionDefault, certPresence := certGuardIsPresenceTest,')
+    out.append('    certDefault := certOptionDefault, certAbsent := certAbsentPermits }')
     out.append('')
     out.append('/-! constants of asyncssh/socks.py and asyncssh/constants.py -/')
     for nm in names:
